@@ -395,6 +395,7 @@ class Batch(object):
         self.model_s = 0.0
         self.vm = []                        # a few (entry, in, out) triples for the vm_compute cross-check
         self.hashes = set()                 # hashes of the non-trivial lines of parts not distinct by construction
+        self.hang_lines = []                # (line, model observation) of every real call that ran into the alarm
 
     def merge(self, o):
         self.n += o.n
@@ -402,7 +403,7 @@ class Batch(object):
         self.in_dom += o.in_dom
         self.valid += o.valid
         self.status.update(o.status)
-        for a in ("spec_fail_in_dom", "spec_fail_no_rc", "corr_fail", "render_fail", "rdflib_fail"):
+        for a in ("spec_fail_in_dom", "spec_fail_no_rc", "corr_fail", "render_fail", "rdflib_fail", "hang_lines"):
             getattr(self, a).extend(getattr(o, a)[:20])
         self.rc_hits.update(o.rc_hits)
         self.rc_fail.update(o.rc_fail)
@@ -470,6 +471,8 @@ def eval_cases(cases, rdflib_every=0, vm_every=0, known=None, by_hash=False):
         iobs = impl_doc(line, timeout=0.1 if mobs[0] == "H" else (2.0 if _UNPREDICTED_HANGS[0] < 3 else 0.2))
         if iobs[0] == "H" and mobs[0] != "H":
             _UNPREDICTED_HANGS[0] += 1
+        if iobs[0] == "H":
+            b.hang_lines.append((line, list(mobs)))
         b.n += 1
         b.status[iobs[0]] += 1
         if len(so) < 4 or so[0] != line:
@@ -745,6 +748,7 @@ def run(tier, seed, replay=None):
         "in_C06_dom": total.in_dom,
         "outside_dom_but_right": total.out_dom_right,
         "impl_status_distribution": dict(total.status),
+        "lines_on_which_the_real_reader_ran_into_the_alarm": total.hang_lines[:20],
         "root_cause_flagged": dict(total.rc_hits),
         "known_finding_hits": dict(total.rc_fail),
         "known_finding_examples": {k: v for k, v in total.rc_example.items()},
